@@ -261,6 +261,10 @@ def wiring (m : Method) : Row :=
       msg := if m.takesMsg then .sprintf (nS + nD) (nS + nD + 1) else .empty,
       err := .nil, shortCircuit := false }
 
+/-- look a method up in a regenerated table (`lean/Generated/Gerror*.lean`, keyed by Go name) -/
+def rowOf (rows : List (String × Row)) (m : Method) : Option Row :=
+  (rows.find? (fun p => p.1.toList == m.goName.toList)).map (·.2)
+
 /-- One call of a factory method.  `params` are the values of the string parameters by position
 (the format string included, though only its rendering matters); `formatted` is
 `fmt.Sprintf(format, elems...)` for the `…Msg…` methods and `fmt.Sprintf("%+v", err)` for
